@@ -64,10 +64,17 @@ func (ir *ifdReader) DecodeJPEGIfd(r io.Reader, h meta.ExifHeader) (err error) {
 			ir.logError(err).Send()
 		}
 	}
-	if err := ir.readIfd(ifds.NewIFD(h.ByteOrder, ifds.IfdType(h.FirstIfd), 0, ir.tiffHeaderOffset, 0)); err != nil {
-		return err
+	// The rest of the block is consumed whether or not the directories could be read: the JPEG
+	// scanner resumes after the declared length of the segment.
+	readErr := ir.readIfd(ifds.NewIFD(h.ByteOrder, ifds.IfdType(h.FirstIfd), 0, ir.tiffHeaderOffset, 0))
+	if remain := int(ir.exifLength) - int(ir.po); remain > 0 {
+		err = ir.discard(remain)
+	} else {
+		err = nil
 	}
-	err = ir.discard(int(ir.exifLength) - int(ir.po))
+	if readErr != nil {
+		return readErr
+	}
 	return err
 }
 
